@@ -10,30 +10,44 @@ namespace XmlDiffModel
 namespace Along
 open Tree Chw XmlDiffModel.Acc XmlDiffModel.Names XmlDiffModel.Rej XmlDiffModel.JInv
 
-theorem shortTexts_of_right (qn : QName) (cfg : Cfg) (L R : Tree) (M : List (Nat × Nat)) (fresh : Nat)
+/-- the Boolean form of "short and, under `w`, whitespace-normal" -/
+def fitB (w : Bool) (t : Option Str) : Bool :=
+  decide ((strOf t).length ≤ TEXT_MAX) && (!w || decide (wsNorm (strOf t) = strOf t))
+
+theorem fitB_iff (w : Bool) (t : Option Str) :
+    fitB w t = true ↔ (strOf t).length ≤ TEXT_MAX ∧ (w = true → wsNorm (strOf t) = strOf t) := by
+  cases w <;> simp [fitB]
+
+theorem shortTexts_of_right (w : Bool) (qn : QName) (cfg : Cfg) (L R : Tree) (M : List (Nat × Nat)) (fresh : Nat)
     (script : List Action) (final : Tree)
-    (hR : ∀ x ∈ bfs R, (keys x.payload.attrs).Nodup ∧ ShortP x.payload)
-    (h : scriptGen qn cfg L R M fresh = .ok (script, final)) : ∀ a ∈ script, ShortTexts a := by
-  have key := Texts.scriptGen_fits (Texts.badT (fun t => decide ((strOf t).length ≤ TEXT_MAX))) (Texts.neutral_badT _) qn cfg L R M fresh script final
-    (fun x hx => ⟨(hR x hx).1, ⟨fun _ => by simpa [Texts.badT] using (hR x hx).2.1,
-      fun _ => by simpa [Texts.badT] using (hR x hx).2.2, fun _ => rfl, fun _ _ => rfl, fun _ _ => rfl⟩⟩) h
+    (hR : ∀ x ∈ bfs R, (keys x.payload.attrs).Nodup ∧ ShortP w x.payload)
+    (h : scriptGen qn cfg L R M fresh = .ok (script, final)) : ∀ a ∈ script, ShortTexts w a := by
+  have key := Texts.scriptGen_fits (Texts.badT (fitB w)) (Texts.neutral_badT _) qn cfg L R M fresh script final
+    (fun x hx => ⟨(hR x hx).1, ⟨fun _ => by
+        have := (fitB_iff w x.payload.text).2 ⟨(hR x hx).2.1, fun hw => ((hR x hx).2.2.2 hw).1⟩
+        simp [Texts.badT, this],
+      fun _ => by
+        have := (fitB_iff w x.payload.tail).2 ⟨(hR x hx).2.2.1, fun hw => ((hR x hx).2.2.2 hw).2⟩
+        simp [Texts.badT, this], fun _ => rfl, fun _ _ => rfl, fun _ _ => rfl⟩⟩) h
   intro a ha
   have := key a ha
-  cases a <;> simp only [ShortTexts] <;> first | trivial | simpa [Texts.badT] using this
+  cases a <;> simp only [ShortTexts] <;> first
+    | trivial
+    | (apply (fitB_iff w _).1; simpa [Texts.badT] using this)
 
 /-- **The XML formatter on the script of the differ, engine included; hypotheses on the two documents only.** -/
 theorem differ_script_engine' (bis : Dmp.Bisect) (qn : QName) (cfg : Cfg) (L R : Tree) (M : List (Nat × Nat))
     (fresh : Nat) (script : List Action) (final : Tree) (ft : List Str) (segs : List (List Seg)) (w : Bool)
-    (hclean : CleanT L) (hshort : AllP ShortP L) (hL : (ids L).Nodup) (hRn : (ids R).Nodup)
+    (hclean : CleanT L) (hshort : AllP (ShortP w) L) (hL : (ids L).Nodup) (hRn : (ids R).Nodup)
     (hdisj : ∀ i ∈ ids L, i ∉ ids R)
     (hfL : ∀ i ∈ ids L, i < fresh) (hfR : ∀ i ∈ ids R, i < fresh) (hM : GoodMatching L R M)
-    (hR : ∀ x ∈ bfs R, (keys x.payload.attrs).Nodup ∧ XClean (fun k => isDiffKey k = false) x ∧ ShortP x.payload)
+    (hR : ∀ x ∈ bfs R, (keys x.payload.attrs).Nodup ∧ XClean (fun k => isDiffKey k = false) x ∧ ShortP w x.payload)
     (h : scriptGen qn cfg L R M fresh = .ok (script, final)) :
-    ∃ s' σ, runFmtE false bis qn (fstate0 L fresh ft segs w) script = .ok s' ∧
+    ∃ s' σ, runFmtE w bis qn (fstate0 L fresh ft segs w) script = .ok s' ∧
       acc (cln accS) s'.tree = MapId.mapId σ final ∧ MapId.InjOn σ (ids final) ∧ rej s'.tree = bare L :=
   differ_script_engine bis qn cfg L R M fresh script final ft segs w hclean hshort hL hRn hdisj hfL hfR hM
     (fun x hx => ⟨(hR x hx).1, (hR x hx).2.1⟩)
-    (shortTexts_of_right qn cfg L R M fresh script final (fun x hx => ⟨(hR x hx).1, (hR x hx).2.2⟩) h) h
+    (shortTexts_of_right w qn cfg L R M fresh script final (fun x hx => ⟨(hR x hx).1, (hR x hx).2.2⟩) h) h
 
 mutual
   /-- clean documents have low texts -/
@@ -56,17 +70,17 @@ end
 succeeds for every sufficiently large fuel and its result has no placeholder character. -/
 theorem differ_script_plain (bis : Dmp.Bisect) (qn : QName) (cfg : Cfg) (L R : Tree) (M : List (Nat × Nat))
     (fresh : Nat) (script : List Action) (final : Tree) (ft : List Str) (w : Bool)
-    (hclean : CleanT L) (hshort : AllP ShortP L) (hL : (ids L).Nodup) (hRn : (ids R).Nodup)
+    (hclean : CleanT L) (hshort : AllP (ShortP w) L) (hL : (ids L).Nodup) (hRn : (ids R).Nodup)
     (hdisj : ∀ i ∈ ids L, i ∉ ids R)
     (hfL : ∀ i ∈ ids L, i < fresh) (hfR : ∀ i ∈ ids R, i < fresh) (hM : GoodMatching L R M)
-    (hR : ∀ x ∈ bfs R, (keys x.payload.attrs).Nodup ∧ XClean (fun k => isDiffKey k = false) x ∧ ShortP x.payload)
+    (hR : ∀ x ∈ bfs R, (keys x.payload.attrs).Nodup ∧ XClean (fun k => isDiffKey k = false) x ∧ ShortP w x.payload)
     (h : scriptGen qn cfg L R M fresh = .ok (script, final)) :
-    ∃ s', runFmtE false bis qn (fstate0 L fresh ft [] w) script = .ok s' ∧ s'.ph = phInit [] ft ∧
+    ∃ s', runFmtE w bis qn (fstate0 L fresh ft [] w) script = .ok s' ∧ s'.ph = phInit [] ft ∧
       ∃ r after, (∃ N, ∀ f, N ≤ f → undoElement f s'.ph diffElemList s'.tree = .ok (r, after)) ∧
         Undo.PlainT s'.ph r := by
   have hR' : ∀ x ∈ bfs R, (keys x.payload.attrs).Nodup ∧ XClean (fun k => isDiffKey k = false) x :=
     fun x hx => ⟨(hR x hx).1, (hR x hx).2.1⟩
-  have hsh := shortTexts_of_right qn cfg L R M fresh script final (fun x hx => ⟨(hR x hx).1, (hR x hx).2.2⟩) h
+  have hsh := shortTexts_of_right w qn cfg L R M fresh script final (fun x hx => ⟨(hR x hx).1, (hR x hx).2.2⟩) h
   obtain ⟨nx, hstrict⟩ := scriptGen_strict qn cfg L R M fresh script final hL hRn hdisj hfL hfR hM
     (fun x hx => (hR x hx).1) (fun x hx hk => by rw [(hR x hx).2.1.1] at hk; cases hk) h
   have hal := scriptGen_along qn (fun k => isDiffKey k = false) cfg L R M fresh script final hL hfL hR' h
@@ -90,14 +104,14 @@ theorem differ_script_plain (bis : Dmp.Bisect) (qn : QName) (cfg : Cfg) (L R : T
     fresh script final hL hRn hfL hM hA h
   have o3 := Once.scriptGen_once Once.tailSel Once.goodSel_tail _ Once.isSome_tailSel Once.one_tail qn cfg L R
     M fresh script final hL hRn hfL hM hA h
-  have hst : ∀ a ∈ script, NoComment a ∧ PlainNames a ∧ TextsOK a ∧ ShortTexts a :=
+  have hst : ∀ a ∈ script, NoComment a ∧ PlainNames a ∧ TextsOK a ∧ ShortTexts w a :=
     fun a ha => ⟨(hacts a ha).1, hpn a ha, (hacts a ha).2.1, hsh a ha⟩
-  obtain ⟨s', σ, h1, _, _, _⟩ := run_E bis qn script _ ⟨htok, hb, rfl⟩ hrok L fresh (fun x => x) r0 [] [] []
-    (jall_init L hclean hshort) hst hpaths (by simpa using o1) (by simpa using o2) (by simpa using o3) ⟨final, nx⟩ hrun
+  obtain ⟨s', σ, h1, _, _, _⟩ := run_E w bis qn script _ ⟨htok, hb, rfl⟩ hrok L fresh (fun x => x) r0 [] [] []
+    (jall_init w L hclean hshort) hst hpaths (by simpa using o1) (by simpa using o2) (by simpa using o3) ⟨final, nx⟩ hrun
   have fi0 : TextMark.FInv (fstate0 L fresh ft [] w) :=
     TextMark.finv_init ft L fresh [] w (lowT_of_clean L hclean) (fun d hd => by cases hd)
-  obtain ⟨fi, hph⟩ := run_E_finv bis qn script _ ⟨htok, hb, rfl⟩ hrok L fresh (fun x => x) r0 [] [] []
-    (jall_init L hclean hshort) fi0 hst hpaths (by simpa using o1) (by simpa using o2) (by simpa using o3)
+  obtain ⟨fi, hph⟩ := run_E_finv w bis qn script _ ⟨htok, hb, rfl⟩ hrok L fresh (fun x => x) r0 [] [] []
+    (jall_init w L hclean hshort) fi0 hst hpaths (by simpa using o1) (by simpa using o2) (by simpa using o3)
     ⟨final, nx⟩ hrun s' h1
   obtain ⟨r, after, hu, hr, _⟩ := TextMark.undoElement_marked s'.ph fi.base s'.tree fi.marked
   exact ⟨s', h1, hph, r, after, hu, hr⟩
